@@ -406,6 +406,9 @@ spec fn fetched_ok(data: Seq<u8>, cbi: Seq<u32>, nchunks: int) -> bool {
     &&& cbi[nchunks] == data.len()
     &&& forall|a: int, b: int| 0 <= a < b < cbi.len() ==> cbi[a] < cbi[b]     // chunks are non-empty
 }
+spec fn trim_want(term: CASReconstructionTerm, fetch_term: CASReconstructionFetchInfo, data: Seq<u8>, cbi: Seq<u32>) -> Seq<u8> {
+    data.subrange(cbi[term.range.start - fetch_term.range.start] as int, cbi[term.range.end - fetch_term.range.start] as int)
+}
 //@ extract cas_client/src/remote_client.rs region get_one_term
 //@ from-after `&chunk_byte_indices, &data)?; }`
 //@ to-before `}` #9
@@ -419,20 +422,13 @@ spec fn fetched_ok(data: Seq<u8>, cbi: Seq<u32>, nchunks: int) -> bool {
         term.range.start < term.range.end,
         fetched_ok(data@, chunk_byte_indices@, fetch_term.range.end - fetch_term.range.start),
     ensures
-        ({
-            let s = term.range.start - fetch_term.range.start;
-            let e = term.range.end - fetch_term.range.start;
-            let want = data@.subrange(chunk_byte_indices@[s] as int, chunk_byte_indices@[e] as int);
-            // data' == data[cbi[s] .. cbi[e]] and the final length check
-            &&& /*@C17*/ r matches Ok(d) ==> d@ == want && d@.len() == term.unpacked_length
-            &&& /*@C17*/ r is Ok <==> want.len() == term.unpacked_length
-        }),
+        // data' == data[cbi[s] .. cbi[e]] and the final length check
+        /*@C17*/ r matches Ok(d) ==> d@ == trim_want(term, fetch_term, data@, chunk_byte_indices@),
+        /*@C17*/ r matches Ok(d) ==> d@.len() == term.unpacked_length,
+        /*@C17*/ r is Ok <==> trim_want(term, fetch_term, data@, chunk_byte_indices@).len() == term.unpacked_length,
 //@ body-start
     let ghost data0 = data@;
-    proof {
-        let nch = fetch_term.range.end - fetch_term.range.start;
-        assert(data0.subrange(0, data0.len() as int) =~= data0);
-    }
+    proof { assert(data0.subrange(0, data0.len() as int) =~= data0); }
 //@ after `data = data.split_off(start_byte_index);`
         proof { assert(data@ =~= data0.subrange(start_byte_index as int, end_byte_index as int)); }
 //@ end
